@@ -11,6 +11,7 @@ package swarm
 import (
 	"context"
 	"errors"
+	"net"
 	"runtime"
 	"sort"
 	"strings"
@@ -155,7 +156,7 @@ func (h *c05D) call(c int64, sim, fdir bool) {
 	}
 	h.line = append(h.line, 1, c, b(sim), b(fdir), b(aerr == nil), int64(len(rk)))
 	for _, e := range rk {
-		h.line = append(h.line, h.addrID[string(e.Addr.Bytes())], int64(e.Delay))
+		h.line = append(h.line, h.idOf(e.Addr), int64(e.Delay))
 	}
 	h.observe()
 }
@@ -262,11 +263,23 @@ func c05DialPeerRandom(out *verifh.Out, r *verifh.Rand, size int) {
 	n := 1 + r.Intn(7)
 	var kinds []int
 	var dls []time.Duration
+	var forms []int
+	aliased := false
 	for i := 1; i <= n; i++ {
 		kinds = append(kinds, []int{0, 0, 1, 2, 2, 3, 4, 5, 6, 7, 7, 8, 9}[r.Intn(13)])
 		dls = append(dls, c05Delays[r.Intn(len(c05Delays))])
+		// half of the addresses are known literally only; the others in a random set of forms
+		f := 1
+		if r.Chance(1, 2) {
+			f = 1 + r.Intn(63)
+			aliased = true
+		}
+		forms = append(forms, f)
 	}
-	h.setAddrs(kinds, dls)
+	h.setAddrForms(kinds, dls, forms)
+	if aliased {
+		out.Cover("dialpeer.cases_with_aliased_addresses")
+	}
 	// back-off left by earlier dials
 	for _, id := range h.ids {
 		if r.Chance(1, 6) {
@@ -336,13 +349,77 @@ func newC05D(fdl, ppl int64) *c05D {
 }
 
 func (h *c05D) setAddrs(kinds []int, delays []time.Duration) {
+	h.setAddrForms(kinds, delays, nil)
+}
+
+// How an address of the case is known to the peerstore (bit mask): 1 literally, 2 literally with
+// a trailing /p2p/<peer>, 4 as a /dns4 name, 8 / 16 / 32 through the /dnsaddr name of the case
+// whose record gives the address / the address with /p2p/<peer> / its /dns4 form.  All of them
+// are the same address to the transports; addrsForDial has to hand it to the worker once.
+const c05DnsaddrName = "d.c05.test"
+
+func c05Dns4Form(a ma.Multiaddr) (ma.Multiaddr, string, net.IP) {
+	first, rest := ma.SplitFirst(a)
+	if first == nil || first.Protocol().Code != ma.P_IP4 {
+		return nil, "", nil
+	}
+	ip := net.ParseIP(first.Value())
+	name := "n-" + strings.ReplaceAll(first.Value(), ".", "-") + ".c05.test"
+	d := ma.StringCast("/dns4/" + name)
+	if rest != nil {
+		d = d.Encapsulate(rest)
+	}
+	return d, name, ip
+}
+
+func (h *c05D) setAddrForms(kinds []int, delays []time.Duration, forms []int) {
 	var as []ma.Multiaddr
+	var txt []string
+	suffix := ma.StringCast("/p2p/" + h.p.String())
 	for i, k := range kinds {
 		a := h.addr(int64(i+1), k)
-		as = append(as, a)
 		h.delays[string(a.Bytes())] = delays[i]
 		h.order[string(a.Bytes())] = i + 1
 		h.ids = append(h.ids, int64(i+1))
+		f := 1
+		if forms != nil {
+			f = forms[i]
+		}
+		d4, name, ip := c05Dns4Form(a)
+		if k == 7 || k >= 8 { // relayed / undialable / unspecified: literal forms only
+			f &= 3
+			d4 = nil
+		}
+		if d4 == nil {
+			f &^= 4 | 32
+		} else if f&(4|32) != 0 {
+			h.dnsIP[name] = []net.IPAddr{{IP: ip}}
+		}
+		if f == 0 {
+			f = 1
+		}
+		if f&1 != 0 {
+			as = append(as, a)
+		}
+		if f&2 != 0 {
+			as = append(as, a.Encapsulate(suffix))
+		}
+		if f&4 != 0 {
+			as = append(as, d4)
+		}
+		if f&8 != 0 {
+			txt = append(txt, "dnsaddr="+a.String())
+		}
+		if f&16 != 0 {
+			txt = append(txt, "dnsaddr="+a.Encapsulate(suffix).String())
+		}
+		if f&32 != 0 {
+			txt = append(txt, "dnsaddr="+d4.String())
+		}
+	}
+	if len(txt) > 0 {
+		h.dnsTXT["_dnsaddr."+c05DnsaddrName] = txt
+		as = append(as, ma.StringCast("/dnsaddr/"+c05DnsaddrName))
 	}
 	h.s.peers.AddAddrs(h.p, as, time.Hour)
 	h.header()
@@ -395,5 +472,25 @@ func c05DialPeerSendCancel(out *verifh.Out) {
 	h.advance(2 * time.Second)
 	h.finishCase()
 	out.Cover("dialpeer.cancel_while_sending")
+	h.end(out)
+}
+
+// A peer known by a /dnsaddr name whose record gives <addr>/p2p/<peer>.  The first addrsForDial
+// writes the resolved address back to the peerstore; from then on the name and the cached address
+// both lead to <addr>, which must still be handed to the worker - and to the transport - once.
+func c05DialPeerDnsaddrTwice(out *verifh.Out) {
+	h := newC05D(4, 4)
+	h.setAddrForms([]int{0, 0}, []time.Duration{250 * time.Millisecond, 250 * time.Millisecond}, []int{16, 2 | 32})
+	h.call(1, false, false)
+	h.advance(300 * time.Millisecond) // both addresses are being dialed
+	h.call(2, false, false)           // a second dial while the resolved addresses are cached
+	h.advance(time.Second)
+	h.result(1, 0) // address 1 fails
+	h.call(3, false, false)
+	h.advance(300 * time.Millisecond)
+	h.result(2, 1) // address 2 connects: everybody returns
+	h.advance(2 * time.Second)
+	h.finishCase()
+	out.Cover("dialpeer.dnsaddr_peer_dialed_twice")
 	h.end(out)
 }
